@@ -17,6 +17,7 @@ import (
 
 	ipfslog "berty.tech/go-ipfs-log"
 	"berty.tech/go-ipfs-log/entry"
+	"berty.tech/go-ipfs-log/iface"
 
 	"verifharness/ev"
 	"verifharness/fakeipfs"
@@ -28,6 +29,7 @@ type c18Prog struct {
 	WKey    int     `json:"wkey"`    // writer's link key
 	RKey    int     `json:"rkey"`    // other reader's link key (made different from wkey)
 	Appends []int   `json:"appends"` // pointer counts of a small log built with the writer key
+	Reopen  int     `json:"reopen"`  // loader used to reopen the log before appending again (index, mod 4)
 }
 
 func genC18(t *rapid.T) c18Prog {
@@ -38,6 +40,7 @@ func genC18(t *rapid.T) c18Prog {
 		WKey:    rapid.IntRange(0, 5).Draw(t, "wkey"),
 		RKey:    rapid.IntRange(0, 5).Draw(t, "rkey"),
 		Appends: rapid.SliceOfN(rapid.SampledFrom([]int{0, 1, 2, 4, 8, 16}), 1, 8).Draw(t, "appends"),
+		Reopen:  rapid.IntRange(0, 3).Draw(t, "reopen"),
 	}
 }
 
@@ -172,6 +175,50 @@ func runC18(tb ev.TB, p c18Prog) ev.Result {
 	rl2, _ := world.NewLog(ls.API(), (p.Entry.Writer+2)%6, "L", world.OrderLWW, same, nil)
 	if _, err := rl2.Join(ll, -1); err != nil {
 		tb.Fatalf("entries loaded with the same key do not verify on merge: %v", err)
+	}
+	// a replica that reopens the log from the store with the key must keep encrypting what it appends
+	heads := wl.Heads().Slice()
+	manifest, err := wl.ToMultihash(ctx)
+	if err != nil {
+		tb.Fatalf("ToMultihash: %v", err)
+	}
+	for li, loader := range []string{"manifest", "json", "entries", "hash"} {
+		if li != p.Reopen%4 {
+			continue
+		}
+		lo := &ipfslog.LogOptions{ID: "L", IO: world.IOFresh(world.CodecLinkKey, wk)}
+		var re *ipfslog.IPFSLog
+		var rerr error
+		switch loader {
+		case "manifest":
+			re, rerr = ipfslog.NewFromMultihash(ctx, ls.API(), world.Identity(3), manifest, lo, &ipfslog.FetchOptions{})
+		case "json":
+			re, rerr = ipfslog.NewFromJSON(ctx, ls.API(), world.Identity(3), wl.ToJSONLog(), lo, &iface.FetchOptions{})
+		case "entries":
+			re, rerr = ipfslog.NewFromEntry(ctx, ls.API(), world.Identity(3), heads, lo, &iface.FetchOptions{})
+		case "hash":
+			re, rerr = ipfslog.NewFromEntryHash(ctx, ls.API(), world.Identity(3), last, lo, &ipfslog.FetchOptions{})
+		}
+		if rerr != nil {
+			tb.Fatalf("reopening the log with the key via %s failed: %v", loader, rerr)
+		}
+		if re.Len() != len(p.Appends) {
+			tb.Fatalf("log reopened via %s holds %d of %d entries", loader, re.Len(), len(p.Appends))
+		}
+		for k := 0; k < 2; k++ {
+			ae, err := re.Append(ctx, []byte{byte('r'), byte('0' + li), byte('0' + k)}, &ipfslog.AppendOptions{PointerCount: p.Appends[0] + 2})
+			if err != nil {
+				tb.Fatalf("append on the log reopened via %s failed: %v", loader, err)
+			}
+			r, _ := ls.Raw(ae.GetHash())
+			checkOpaque(tb, r, append(append([]cid.Cid{}, ae.GetNext()...), ae.GetRefs()...))
+			checkOpaque(tb, r, written)
+		}
+		// and what it appended is readable, verifiable and mergeable by same-key parties
+		back, _ := world.NewLog(ls.API(), 4, "L", world.OrderLWW, same, nil)
+		if _, err := back.Join(re, -1); err != nil {
+			tb.Fatalf("entries appended after reopening via %s do not merge into a same-key replica: %v", loader, err)
+		}
 	}
 	for name, io := range map[string]ipfslogIO{"no key": noio, "different key": otherio} {
 		lo, err := ipfslog.NewFromEntryHash(ctx, ls.API(), world.Identity(0), last, &ipfslog.LogOptions{ID: "L", IO: io}, &ipfslog.FetchOptions{})
